@@ -109,7 +109,7 @@ PROPS["C10"] = {
 }
 
 PROPS["C04"] = {
-    "deps": ["Proofs/Reading.vo", "Proofs/C09_Final.vo", "Proofs/ReaderSafe.vo"],
+    "deps": ["Proofs/Reading.vo", "Proofs/C09_Final.vo", "Proofs/ReaderSafe.vo", "Proofs/LangFinal.vo", "Proofs/LangExamples.vo"],
     "props": "Props/C04.v",
     "probes": [{"file": "Probes/Reading.v"}],
     "suites": [("reader", 1600, 40000), ("reader_exh", 0, 22621)],
@@ -117,7 +117,7 @@ PROPS["C04"] = {
     "assumptions": ["UTF-8 decoding (str::chars) is std; the model's input is the list of code points"],
 }
 PROPS["C05"] = {
-    "deps": ["Proofs/Reading.vo"],
+    "deps": ["Proofs/Reading.vo", "Proofs/LangFinal.vo"],
     "props": "Props/C05.v",
     "probes": [{"file": "Probes/Reading.v", "filter": lambda name: name.startswith("C04.token_")}],
     "suites": [("reader", 1600, 40000), ("reader_exh", 0, 22621)],
